@@ -193,11 +193,13 @@ def b256_run(s, pos, out):
 
 
 LAST_MODES = set()   # non-ASCII modes the last decoded stream latched into
+LAST_ORDER = []      # the same, in order of appearance (with repetitions)
 
 
 def iso_decode(cw, strdec=False):
     """-> (bytes, ecis) or None"""
     LAST_MODES.clear()
+    del LAST_ORDER[:]
     cw = bytes(cw)
     out = bytearray()
     ecis = []
@@ -224,6 +226,7 @@ def iso_decode(cw, strdec=False):
             s, pos, mode = r
             if mode != 'ascii':
                 LAST_MODES.add(mode)
+                LAST_ORDER.append(mode)
             continue
         if mode == 'b256':
             rest = b256_run(s, pos, out)
